@@ -464,7 +464,14 @@ def _check_binop(F, ob, fname, kind, op, rets, floating):
             msg = '`%s` is applied to (%s, %s): %s' % (op, show(a), show(b), ea or eb)
             continue
         T = core[4]
-        if floating:
+        # a comparison of the integer folder is a floating comparison exactly on the paths that found an operand floating
+        # and fold both operands with the floating folder (usual arithmetic conversions give both the same type)
+        flo_cmp = False
+        if not floating and kind in FLOATABLE_INT_NODE:
+            ra, rb = as_rec(_core(a)[0]), as_rec(_core(b)[0])
+            found = any(p.guard_of(('call', 'is_flonum', (ty_of(child(c)),))) is True for c in ('lhs', 'rhs'))
+            flo_cmp = bool(ra and rb and ra[0] == 'eval_double' and rb[0] == 'eval_double' and found)
+        if floating or flo_cmp:
             if T[0] != 'f' or T[1] < 64:
                 good = False; construct = 'host-type'; msg = '`%s` is carried out in %s, not in double' % (op, tshow(T))
         else:
